@@ -681,3 +681,48 @@ def s_input_to_ir_value(ctx):
 SCENARIOS = SCENARIOS + [
     Scenario("C12.builder.input_to_ir_value", s_input_to_ir_value, F("onnxscript/_internal/tape_builder.py", "BuilderBase._input_to_ir_value")),
 ]
+
+
+def s_constant_cache_real_builder(_ctx):
+    """The REAL GraphBuilder on pairs of special literals (nan, inf, signed zeros, True/1/1.0, equal lists): requesting a constant twice never
+    raises (a second request is a cache hit or gets its own initializer NAME — onnx_ir refuses two initializers of one name) and every request
+    returns an initializer holding exactly the bits of the literal at the requested type."""
+    import itertools
+    import math
+    import numpy as np
+    import onnx_ir as ir
+    from contracts.c17_opsets import Agg
+    from onnxscript._internal import builder
+    agg = Agg()
+    lits = [float("nan"), -float("nan"), float("inf"), -float("inf"), 0.0, -0.0, 1.0, 1, True, 0, False, [float("nan")], [0.0, -0.0], [-0.0, 0.0], [1, 2], [1.0, 2.0]]
+    n = 0
+    for a, b in itertools.product(lits, repeat=2):
+        for dt in (None, ir.DataType.FLOAT, ir.DataType.DOUBLE):
+            n += 1
+            case = f"{a!r} then {b!r} as {dt.name if dt else 'default type'}"
+            g = ir.Graph([], [], nodes=[], opset_imports={"": 18}, name="g")
+            gb = builder.GraphBuilder(g)
+            try:
+                va = gb._get_or_create_constant(a, dt)
+                vb = gb._get_or_create_constant(b, dt)
+            except Exception as e:  # noqa: BLE001
+                agg.ob("C12.builder.constant_cache.requesting_two_literals_never_raises", False, f"{case}: {type(e).__name__}: {str(e)[:120]}", CL_CACHE,
+                       case=("a NaN literal requested twice" if any(isinstance(x, float) and math.isnan(x) for x in (a if isinstance(a, list) else [a])) else case))
+                continue
+            agg.ob("C12.builder.constant_cache.requesting_two_literals_never_raises", True, case, CL_CACHE)
+            ok = True
+            for lit, v in ((a, va), (b, vb)):
+                arr = v.const_value.numpy()
+                want = np.array(lit, dtype=arr.dtype)
+                # bit-equal, except that all NaNs count as one value (sign / payload of a NaN are not observable through ONNX arithmetic)
+                ok = ok and arr.shape == want.shape and (arr.tobytes() == want.tobytes() or (
+                    arr.dtype.kind == "f" and np.array_equal(np.isnan(arr), np.isnan(want))
+                    and np.where(np.isnan(arr), 0, arr).tobytes() == np.where(np.isnan(want), 0, want).tobytes()))
+            agg.ob("C12.builder.constant_cache.each_request_returns_the_bits_of_its_literal", ok, f"{case}: got {va.const_value.numpy()!r} and {vb.const_value.numpy()!r}", CL_CACHE,
+                   case=case)
+    return {"obligations": agg.obs, "paths": n, "covered": [f"literal_pairs={n}"], "notes": [], "functions": []}
+
+
+SCENARIOS.append(Scenario("C12.builder.constant_cache[real builder, special literals]", s_constant_cache_real_builder,
+                          F(BUILDER, "GraphBuilder._get_or_create_constant", "_constant_cache_key") + [("onnxscript/_internal/tape_builder.py", "_constant_name")], kind="evaluation",
+                          trusted=["numpy: np.array(literal, dtype).tobytes() is the reference for 'the bits of the literal'"]))
